@@ -120,6 +120,21 @@ CLEAR_EDGES_OK = {'C04', 'C05', 'C08', 'C12', 'C13', 'C15'}      # oracles that 
 def add_prelife(rnd, case, pid=None):
     """with probability 0.15: the graph lived before (same object): adds at instants the case itself does not use,
     reads of ids / presence / stream (so that anything cached is cached), then clear()"""
+    if pid in ('C12', 'C13', 'C15', 'C20') and 'hist' in case and rnd.random() < 0.12:
+        # path algorithms: an earlier life that is a NEAR TWIN of the case (same number of snapshot ids, same first and last id, one
+        # interior instant moved), queried for paths, then cleared -- whatever was memoised about the old timeline must not survive
+        adds = [o for o in case['hist'] if o[0] == 'add' and o[4] is not None]
+        S = sorted({o[4] for o in adds})
+        free = [x for x in range(S[0] + 1, S[-1]) if x not in S] if len(S) >= 3 else []
+        if free and len(adds) == len(case['hist']):
+            m, m2 = rnd.choice(S[1:-1]), rnd.choice(free)
+            pre = [(o[0], o[1], o[2], o[3], m2, None) if o[4] == m else (o[0], o[1], o[2], o[3], o[4], None) for o in adds]
+            pre.sort(key=lambda o: o[4])
+            root = adds[0][2]
+            pre += [('ids', 0), ('tdag', 0, root, None, None, None), ('clear', 0, rnd.choice(['clear', 'clear_edges'] if pid in CLEAR_EDGES_OK else ['clear']))]
+            case = dict(case)
+            case['prelife'] = pre
+            return case
     if rnd.random() >= 0.15 or 'hist' not in case:
         return case
     base = rnd.choice([40, 200, -60])
